@@ -22,3 +22,11 @@ claim("C16", "exhaustive sweep of all limits 0..N+2 per generated document, meta
       "For each generated, mutated or broken document of either grammar every limit from 0 to token-count+2 is tried: exactness against the reference token count, identity of tree and positions with the unlimited parse, monotonicity, and independence from everything after token L+2 (replaced by invalid bytes, an unterminated string, 64 KiB of brackets). 25 families of 1-8 MiB must fail fast with bounded allocation under limits 1..100000.",
       "Token counts come from the reference lexer; work bounds are observed through tail independence, wall time and allocation deltas, not through instrumentation.",
       "6/C16")
+claim("C12", "round-trip property over generated trees crossed with the complete formatter configuration space",
+      "Generated executable documents (hostile string contents, directives everywhere, fragment variables, comments) are parsed, formatted under all 112 configurations (16 option subsets x 7 indents), re-parsed and compared by projection; the formatter must be a fixpoint on its own output.",
+      "Equality is on the harness projection (block string == quoted string of equal value; alias equal to name == no alias). Search, not proof, over documents; exhaustive over configurations.",
+      "6/C12")
+claim("C19", "round-trip property over generated trees",
+      "Parsed generated documents and the repository's example queries are encoded with encoding/json and decoded back; projections (positions and comments excluded) must be equal and a second trip stable.",
+      "Search over the tree generator's distribution; equality on the harness projection.",
+      "6/C19")
